@@ -1413,7 +1413,8 @@ struct array : static_array<T, D, Alloc> {
 	auto assign(It first, It last) -> array& {
 		using std::all_of;
 		using std::next;
-		if(adl_distance(first, last) == this->size()) {
+		auto const count = adl_distance(first, last);
+		if(count == this->size() && (count == 0 || this->extensions() == typename array::index_extension(count) * multi::extensions(*first))) {
 			static_::ref::assign(first);
 		} else {
 			this->operator=(array(first, last));
